@@ -385,6 +385,10 @@ func (x *Exec) byContract(st *State, fr *Frame, n ast.Node, pc *ProcContract, os
 	tsub map[string]string, calleePkg string, k func(*State, []Term)) {
 
 	env := &CEnv{names: map[string]Term{}, st: st, old: st, tsub: tsub}
+	for k2, v := range x.extraNames {
+		env.names[k2] = v
+	}
+	x.extraNames = nil
 	if recv.ok() {
 		env.self = recv
 		if osig.Recv() != nil && osig.Recv().Name() != "" && osig.Recv().Name() != "_" {
@@ -403,7 +407,12 @@ func (x *Exec) byContract(st *State, fr *Frame, n ast.Node, pc *ProcContract, os
 		env.names[fmt.Sprintf("$%d", i+1)] = a
 	}
 	restore := x.enterPkg(calleePkg)
-	defer restore()
+	restored := false
+	defer func() {
+		if !restored {
+			restore()
+		}
+	}()
 	for _, g := range pc.Ghosts {
 		t, err := x.cevalSafe(env, Clause{Expr: g.Expr, Src: g.Src, Line: g.Line, File: pc.File}, "")
 		if err != nil {
@@ -467,6 +476,13 @@ func (x *Exec) byContract(st *State, fr *Frame, n ast.Node, pc *ProcContract, os
 		r.Ty = rt
 		results = append(results, r)
 		x.assumeTypeInv(post, r)
+		if r.Sort == "Ref" && !pc.Pure {
+			if post == st {
+				post = st.clone()
+			}
+			am := x.heapMap(post, "Alloc", "Bool")
+			post.maps["Alloc"] = tStore(am, r, tTrue)
+		}
 	}
 	env2 := *env
 	env2.st = post
@@ -481,6 +497,8 @@ func (x *Exec) byContract(st *State, fr *Frame, n ast.Node, pc *ProcContract, os
 		}
 		post.assume(t)
 	}
+	restored = true
+	restore()
 	k(post, results)
 }
 
@@ -942,13 +960,35 @@ func (x *Exec) ifaceCall(st *State, fr *Frame, ce *ast.CallExpr, in *types.Named
 	}
 	osig := f.Origin().Type().(*types.Signature)
 	csig, _ := x.info.TypeOf(ce.Fun).(*types.Signature)
-	if pc.Pure {
+	if pc.Pure && x.statelessIface(in) {
 		if ms, ok := x.methodUF(in, f.Name()); ok && len(args) == len(ms.args) {
 			r := tApp(ms.ret, ms.fname, append([]Term{recv}, args...)...)
 			x.resultOverride = []Term{r}
 		}
 	}
 	x.byContract(st, fr, ce, pc, osig, csig, recv, args, sub, owner.Obj().Pkg().Path(), k)
+}
+
+// statelessIface: an interface whose contract declares no abstract state; only then is a
+// pure method a function of receiver and arguments alone.
+func (x *Exec) statelessIface(in *types.Named) bool {
+	stateless := true
+	var visit func(n *types.Named)
+	visit = func(n *types.Named) {
+		if n == nil {
+			return
+		}
+		if ic, _ := x.db.lookupIface(n); ic != nil && len(ic.States) > 0 {
+			stateless = false
+		}
+		if it, ok := n.Underlying().(*types.Interface); ok {
+			for i := 0; i < it.NumEmbeddeds(); i++ {
+				visit(namedOf(it.EmbeddedType(i)))
+			}
+		}
+	}
+	visit(in)
+	return stateless
 }
 
 // enterPkg switches the package context used to resolve names in contract expressions.
@@ -1275,6 +1315,8 @@ func (x *Exec) dynamicCall(st *State, fr *Frame, ce *ast.CallExpr, k func(*State
 		}
 	}
 	if fpc := x.fnParamContract(fun); fpc != nil {
+		// the function value itself is known by the parameter's name inside its contract
+		x.extraNames = map[string]Term{strings.TrimPrefix(fpc.Key[strings.LastIndex(fpc.Key, "#")+1:], "fn"): fv}
 		x.byContract(st, fr, ce, fpc, sig, sig, Term{}, args, nil, "", k)
 		return
 	}
